@@ -217,10 +217,14 @@ PROPS = {
                 [("GcpVerif.Proofs.PickAtomic", "GcpVerif.Sync.c02_scan_exclusive"), ("GcpVerif.Proofs.PickAtomic", "GcpVerif.Sync.c02_scan_present")]),
     "C03": dict(pool_prop([], ["size bound: minSize <= maxSize and no Shutdown report for a current pool member (RunOk; known finding K6 outside, kernel-checked witness size_bound_needs_contract)"]),
                 theorems=pool_thms(["growth_only_when_saturated", "at_max_places_anyway", "below_watermark_places"]) +
-                [("GcpVerif.Proofs.PoolSlots", "GcpVerif.Pool." + n) for n in ["size_bounded", "slots_bijective", "pool1_run", "size_bound_needs_contract"]]),
+                [("GcpVerif.Proofs.PoolSlots", "GcpVerif.Pool." + n) for n in ["size_bounded", "slots_bijective", "pool1_run", "size_bound_needs_contract"]] +
+                [("GcpVerif.Proofs.PoolInitial", "GcpVerif.Pool." + n) for n in ["initial_size", "pristine_run", "enforce_len"]]),
     "C04": dict(pool_prop([]), theorems=[("GcpVerif.Proofs.PoolPublish", "GcpVerif.Pool." + n) for n in
-                ["counters_exact", "pool_connections_only", "tables_run", "published_matches_pool", "err_picker_iff_tf", "pub_run"]],
-                leanchecker=["GcpVerif.Proofs.PoolPublish"]),
+                ["counters_exact", "pool_connections_only", "tables_run", "published_matches_pool", "err_picker_iff_tf", "pub_run"]] +
+                [("GcpVerif.Proofs.PoolReady", "GcpVerif.Pool." + n) for n in
+                 ["picker_ready_list", "rdy_run", "publish_on_change", "unknown_connection_ignored", "th_run"]] +
+                [("GcpVerif.Proofs.PoolStages", "GcpVerif.Pool.lift_step")],
+                leanchecker=["GcpVerif.Proofs.PoolPublish", "GcpVerif.Proofs.PoolReady"]),
     "C05": dict(pool_prop([]), theorems=[("GcpVerif.Proofs.PoolTables", "GcpVerif.Pool." + n) for n in
                 ["pool_connections_only", "tables_run"]] + [("GcpVerif.Proofs.PoolValid", "GcpVerif.Pool." + n) for n in
                 ["pool_never_panics", "slots_exist", "valid_run"]]),
